@@ -21,6 +21,8 @@ pub struct FnGen<'t, 'a> {
     marker: u32,
     pub probe: Option<&'static str>,
     pub idioms: u32,
+    /// a function that adds its argument to the first global and gives the argument back
+    bumper: Option<Name>,
 }
 
 fn idn(n: &Name) -> Ident {
@@ -39,7 +41,7 @@ fn it() -> Expr {
 impl<'t, 'a> FnGen<'t, 'a> {
     pub fn new(t: &'t mut Tape<'a>) -> Self {
         let pool = names::distinct(t, 40);
-        let mut g = FnGen { t, pool, next: 0, globals: vec![], queue: simple("queue"), funcs: vec![], marker: 0, probe: None, idioms: 0 };
+        let mut g = FnGen { t, pool, next: 0, globals: vec![], queue: simple("queue"), funcs: vec![], marker: 0, probe: None, idioms: 0, bumper: None };
         g.globals = (0..3).map(|_| g.fresh()).collect();
         g.queue = g.fresh();
         g
@@ -265,7 +267,27 @@ impl<'t, 'a> FnGen<'t, 'a> {
         let n = 1 + self.t.weighted(&[10, 25, 30, 20, 15]);
         let mut s: Vec<Stmt> = vec![];
         for _ in 0..n {
-            match self.t.weighted(&[25, 20, 8, 12, if depth > 0 { 10 } else { 0 }, if depth > 0 { 10 } else { 0 }, 10]) {
+            match self.t.weighted(&[25, 20, 8, 12, if depth > 0 { 10 } else { 0 }, if depth > 0 { 10 } else { 0 }, 10, if self.bumper.is_some() { 14 } else { 0 }]) {
+                7 => {
+                    // the statement reads and writes a variable that one of its operands changes on the way: the left
+                    // operand is read before the right one is evaluated, whatever the spelling of the mentions
+                    let g = self.globals[0].clone();
+                    let b = self.bumper.clone().unwrap();
+                    let k = num((2 + self.t.pick(5)) as f64);
+                    match self.t.pick(5) {
+                        0 => s.push(Stmt::Assign { dest: lhs(&g), value: vec![bin(BinOp::Plus, var(&g), call(&b, vec![k]))], op: None }),
+                        1 => s.push(put(bin(BinOp::Plus, var(&g), call(&b, vec![k])), &g)),
+                        2 => s.push(Stmt::Assign { dest: lhs(&g), value: vec![call(&b, vec![k])], op: Some(BinOp::Plus) }),
+                        3 => s.push(Stmt::Assign { dest: lhs(&g), value: vec![bin(BinOp::Multiply, var(&g), call(&b, vec![k]))], op: None }),
+                        _ => {
+                            let acc = simple("acc");
+                            s.push(put(var(&self.queue.clone()), &acc));
+                            s.push(Stmt::Assign { dest: lhs(&acc), value: vec![bin(BinOp::Plus, var(&acc), Expr::Primary(Primary::Pop(Box::new(pvar(&acc)))))], op: None });
+                            s.push(say(var(&acc)));
+                        }
+                    }
+                    s.push(say(var(&g)));
+                }
                 0 => {
                     let c = self.call_expr();
                     s.push(say(c))
@@ -630,6 +652,17 @@ impl<'t, 'a> FnGen<'t, 'a> {
         for _ in 0..nf {
             let d = self.define();
             s.push(d);
+        }
+        if self.t.chance(1, 4) {
+            let b = self.fresh();
+            let amount = self.fresh();
+            let g = self.globals[0].clone();
+            s.push(Stmt::Function {
+                name: b.clone(),
+                params: vec![amount.clone()],
+                body: vec![Stmt::Assign { dest: lhs(&g), value: vec![bin(BinOp::Plus, var(&g), var(&amount))], op: None }, Stmt::Return { value: var(&amount) }],
+            });
+            self.bumper = Some(b);
         }
         // now and then 40-130 further globals of all three name kinds (a symbol table beyond any small inline size),
         // written early, read back after everything else ran
